@@ -337,6 +337,12 @@ class Body:
             p = cur["p"] if cur.get("k") in ("copy", "move") else cur
             l = p["l"]
             pr = [e for e in p.get("p", []) if e != "*"]
+            if l == 1 and self.d.get("upvars") is not None and pr and isinstance(pr[0], dict) \
+                    and str(pr[0].get("of", "")).startswith("closure:") and pr[0]["f"] < len(self.d["upvars"]):
+                # captured place: expand the upvar's path (`*self.state.x`) into pseudo field projections
+                name = self.d["upvars"][pr[0]["f"]]["name"].lstrip("*&")
+                segs = [x for x in name.split(".")[1:] if x]
+                pr = [pr[0]] + [{"f": -1, "of": "?upvar", "n": sg} for sg in segs] + pr[1:]
             if pr:
                 proj = pr + proj
             if 1 <= l <= self.d["arg_count"]:
